@@ -206,6 +206,69 @@ Proof. exact (calibrate_raises K HK). Qed.
 Theorem C18_floor_positive : 0 < c_floor K /\ 0 < c_cal_floor K.
 Proof. exact (consts_ok_floor_pos K HK). Qed.
 
+(* ---- one sensor object over ANY sequence of calls ------------------
+   [sop] = OpRead v (the `pressure` getter while the input reads v volts) |
+   OpCalibrate v p (`calibrate(p)` while the input reads v volts);
+   [observations K s0 ops] = what each call returned, [final_state K s0 ops] =
+   the object afterwards; [is_read o] = o is an OpRead. *)
+
+(* reads never change the object (no caching, no drift) *)
+Theorem C18_reads_keep_state : forall s ops,
+  Forall is_read ops -> final_state K s ops = s.
+Proof. exact (reads_keep_state K). Qed.
+
+(* after calibrate(p), p >= 0, the sensor reports p at the calibration
+   voltage -- whatever was done with the object before (reads, earlier
+   calibrations, failed calibrations: [pre] is arbitrary) and however many
+   reads at whatever voltages lie in between *)
+Theorem C18_history_calibrated : forall s0 pre v p mid,
+  0 <= p -> Forall is_read mid ->
+  exists obs y,
+    observations K s0 (pre ++ OpCalibrate v p :: mid ++ [OpRead v]) = obs ++ [ObsRead (Val y)] /\
+    y == p.
+Proof. exact (history_calibrated K HK). Qed.
+
+(* ... and at any other voltage v' the reading follows the LAST calibration *)
+Theorem C18_history_calibrated_general : forall s0 pre v p mid v',
+  ~ p == -25 -> Forall is_read mid ->
+  exists obs y,
+    observations K s0 (pre ++ OpCalibrate v p :: mid ++ [OpRead v']) = obs ++ [ObsRead (Val y)] /\
+    y == (p + 25) * (pymax v' (1 # 100000) / pymax v (1 # 100000)) - 25.
+Proof. exact (history_calibrated_general K HK). Qed.
+
+(* an uncalibrated sensor reports 250 V / Vcc - 25 after any number of reads *)
+Theorem C18_history_uncalibrated : forall vcc reads v,
+  Forall is_read reads -> (1 # 100000) <= v -> ~ vcc == 0 ->
+  exists obs y,
+    observations K (new_sensor vcc) (reads ++ [OpRead v]) = obs ++ [ObsRead (Val y)] /\
+    y == 250 * (v / vcc) - 25.
+Proof. exact (history_uncalibrated K HK). Qed.
+
+(* in no history does a read raise *)
+Theorem C18_history_reads_never_raise : forall ops s0,
+  Forall read_returns (observations K s0 ops).
+Proof. exact (history_reads_never_raise K HK). Qed.
+
+(* calibrate(p) returns for p <> -25; calibrate(-25) raises and leaves the
+   object as it was *)
+Theorem C18_history_calibrate_outcome : forall s v p,
+  (~ p == -25 -> step_obs K s (OpCalibrate v p) = ObsCalibrate (Val tt)) /\
+  (p == -25 -> step_state K s (OpCalibrate v p) = s /\
+               step_obs K s (OpCalibrate v p) = ObsCalibrate (Raise ZeroDivisionError)).
+Proof. exact (fun s v p => conj (step_calibrate_returns K HK s v p) (step_calibrate_fails K HK s v p)). Qed.
+
+(* complete description: after ANY calls the object is the initial one if no
+   calibrate(p <> -25) was among them, else it reads, at every voltage, as
+   the last such calibration (vc, p) says *)
+Theorem C18_history_spec : forall s0 ops,
+  match last_cal ops with
+  | None => final_state K s0 ops = s0
+  | Some (vc, p) =>
+      forall v, exists y, pressure K (final_state K s0 ops) v = Val y /\
+                          y == (p + 25) * (pymax v (1 # 100000) / pymax vc (1 # 100000)) - 25
+  end.
+Proof. exact (history_spec K HK). Qed.
+
 End PressureSensor.
 
 (* ---------------- non-vacuity -------------------------------------- *)
@@ -312,6 +375,26 @@ Proof.
   split; [reflexivity|]. vm_compute. reflexivity.
 Qed.
 
+(* histories: a reading taken BEFORE calibrate() does not affect the reading
+   after it (read, calibrate(50) at 2 V, read -> 4175/33 then 50), nor does a
+   reading between two calibrations *)
+Example C18_nv_history :
+  observations doc_consts (new_sensor (33 # 10)) [OpRead 2; OpCalibrate 2 50; OpRead 2] =
+    [ObsRead (Val (250 * (2 / (33 # 10)) - 25)); ObsCalibrate (Val tt);
+     ObsRead (Val (250 * (2 / (2 / ((4 # 1000) * 50 + (1 # 10)))) - 25))] /\
+  250 * (2 / (2 / ((4 # 1000) * 50 + (1 # 10)))) - 25 == 50 /\
+  last_cal [OpCalibrate 1 20; OpRead 1; OpCalibrate (31 # 10) 110; OpCalibrate 3 (-25); OpRead 3] =
+    Some (31 # 10, 110) /\
+  (exists y, pressure doc_consts (final_state doc_consts (new_sensor 5)
+               [OpCalibrate 1 20; OpRead 1; OpCalibrate (31 # 10) 110; OpCalibrate 3 (-25); OpRead 3]) (31 # 10) = Val y
+             /\ y == 110) /\
+  Forall is_read [OpRead 1; OpRead (1 # 2)] /\ ~ is_read (OpCalibrate 1 1).
+Proof.
+  split; [reflexivity|]. split; [vm_compute; reflexivity|]. split; [reflexivity|].
+  split; [eexists; split; [reflexivity|vm_compute; reflexivity]|].
+  split; [repeat constructor|exact (fun H => H)].
+Qed.
+
 Print Assumptions C18_same_unit.
 Print Assumptions C18_there_and_back.
 Print Assumptions C18_composition.
@@ -335,3 +418,10 @@ Print Assumptions C18_calibrated.
 Print Assumptions C18_calibrated_general.
 Print Assumptions C18_calibrate_minus25_raises.
 Print Assumptions C18_floor_positive.
+Print Assumptions C18_reads_keep_state.
+Print Assumptions C18_history_calibrated.
+Print Assumptions C18_history_calibrated_general.
+Print Assumptions C18_history_uncalibrated.
+Print Assumptions C18_history_reads_never_raise.
+Print Assumptions C18_history_calibrate_outcome.
+Print Assumptions C18_history_spec.
